@@ -103,3 +103,12 @@ Proof.
     by (symmetry; repeat (apply andb_true_intro; split); lia).
   eexists; reflexivity.
 Qed.
+
+(** Execute of every Request implementation, however deeply re-PREPAREs are nested, returns. *)
+Theorem execute_never_panics k : exists e, execute_req false k = Ok e.
+Proof. induction k as [| |orig IH]; cbn; eauto. Qed.
+
+(** before the repair a backend could reach the two panics *)
+Theorem execute_panicked_before_the_repair :
+  (exists w, execute_req true KInternal = Panic w) /\ (exists w, execute_req true (KPrepare KClient) = Panic w).
+Proof. split; eexists; reflexivity. Qed.
